@@ -17,6 +17,7 @@
 import GeoModel.Hull
 import GeoProofs.Lemmas.C08Mem
 import Mathlib.Tactic.Linarith
+import Mathlib.Tactic.Ring
 
 namespace Geo.Proofs.C08
 open Geo Geo.Hull
@@ -111,5 +112,256 @@ theorem quickHull_verified_or_graham (rnd : Rat → Rat) (pts : List Pt) (h : 4 
       cases hv : isStrictCcwHull (quickHullRaw rnd pts).2 with
       | true => rfl
       | false => simp [hl', hv] at hc
+
+
+/-! ### T1: soundness of the checker `isStrictHull` (the per-case property verdict) -/
+
+/-- [T] `orient` is the sign of the exact determinant. -/
+theorem orient_ccw_iff (a b c : Pt) : orient a b c = .ccw ↔ 0 < cross a b c := by
+  unfold orient
+  dsimp only
+  constructor
+  · intro h
+    split at h
+    · assumption
+    · split at h <;> simp at h
+  · intro h
+    rw [if_pos h]
+
+private theorem triplesCcw_get (l : List Pt) (h : triplesCcw l = true) :
+    ∀ (i : Nat) (a b c : Pt), l[i]? = some a → l[i + 1]? = some b → l[i + 2]? = some c →
+      0 < cross a b c := by
+  induction l with
+  | nil => intro i a b c ha; simp at ha
+  | cons x t ih =>
+    intro i a b c ha hb hc
+    cases t with
+    | nil => simp at hb
+    | cons y u =>
+      cases u with
+      | nil => simp at hc
+      | cons z w =>
+        simp only [triplesCcw, Bool.and_eq_true, beq_iff_eq] at h
+        cases i with
+        | zero =>
+          simp at ha hb hc
+          subst ha hb hc
+          exact (orient_ccw_iff _ _ _).1 h.1
+        | succ j =>
+          exact ih h.2 j a b c (by simpa using ha) (by simpa using hb) (by simpa using hc)
+
+private theorem cyc_get (v : List Pt) (hn : 2 ≤ v.length) (i k : Nat) (hi : i < v.length) (hk : k ≤ 2) :
+    (v ++ v.take 2)[i + k]? = v[(i + k) % v.length]? := by
+  by_cases hlt : i + k < v.length
+  · rw [List.getElem?_append_left hlt, Nat.mod_eq_of_lt hlt]
+  · have hge : v.length ≤ i + k := by omega
+    rw [List.getElem?_append_right hge, List.getElem?_take]
+    have hmod : (i + k) % v.length = i + k - v.length := by
+      rw [Nat.mod_eq_sub_mod hge, Nat.mod_eq_of_lt (by omega)]
+    rw [hmod, if_pos (by omega)]
+
+/-- [T] the turn test of the checker, spelled out: at every vertex `i` of the (unclosed) vertex list
+`v` the cyclically consecutive vertices make a strict left turn. -/
+theorem cycTriplesCcw_spec (v : List Pt) (h : cycTriplesCcw v = true) :
+    ∀ i, i < v.length → ∀ a b c : Pt, v[i]? = some a → v[(i + 1) % v.length]? = some b →
+      v[(i + 2) % v.length]? = some c → 0 < cross a b c := by
+  unfold cycTriplesCcw at h
+  simp only [Bool.and_eq_true, decide_eq_true_eq] at h
+  intro i hi a b c ha hb hc
+  have h0 := cyc_get v h.1 i 0 hi (by omega)
+  have h1 := cyc_get v h.1 i 1 hi (by omega)
+  have h2 := cyc_get v h.1 i 2 hi (by omega)
+  rw [Nat.add_zero, Nat.mod_eq_of_lt hi] at h0
+  exact triplesCcw_get _ h.2 i a b c (by rw [← ha]; simpa using h0) (by rw [← hb]; exact h1)
+    (by rw [← hc]; exact h2)
+
+/-- [T] a strict left turn excludes a repeated vertex and a vertex on the line through its
+neighbours (in particular on the segment between them). -/
+theorem strict_turn_not_degenerate (a b c : Pt) (h : 0 < cross a b c) :
+    a ≠ b ∧ b ≠ c ∧ ¬ ∃ t : Rat, b.x = a.x + t * (c.x - a.x) ∧ b.y = a.y + t * (c.y - a.y) := by
+  refine ⟨?_, ?_, ?_⟩
+  · intro hab; subst hab
+    simp [cross] at h
+  · intro hbc; subst hbc
+    simp [cross] at h
+  · rintro ⟨t, hx, hy⟩
+    have : cross a b c = 0 := by
+      unfold cross; rw [hx, hy]; ring
+    linarith
+
+/-- [T] checker soundness, shape: an accepted ring is closed and has at least 4 coordinates. -/
+theorem isStrictHull_closed (h pts : List Pt) (hs : isStrictHull h pts = true) :
+    4 ≤ h.length ∧ h.head? = h.getLast? := by
+  unfold isStrictHull at hs
+  simp only [Bool.and_eq_true, decide_eq_true_eq, beq_iff_eq] at hs
+  exact ⟨hs.1.1.1.1, hs.1.1.1.2⟩
+
+/-- [T] checker soundness, turns: every cyclically consecutive triple of vertices of an accepted
+ring is strictly counter-clockwise. -/
+theorem isStrictHull_turns (h pts : List Pt) (hs : isStrictHull h pts = true) :
+    ∀ i, i < h.dropLast.length → ∀ a b c : Pt, h.dropLast[i]? = some a →
+      h.dropLast[(i + 1) % h.dropLast.length]? = some b →
+      h.dropLast[(i + 2) % h.dropLast.length]? = some c → 0 < cross a b c := by
+  unfold isStrictHull at hs
+  simp only [Bool.and_eq_true] at hs
+  exact cycTriplesCcw_spec _ hs.1.1.2
+
+/-- [T] checker soundness, vertices: every coordinate of an accepted ring is an input coordinate. -/
+theorem isStrictHull_vertices (h pts : List Pt) (hs : isStrictHull h pts = true) :
+    ∀ v ∈ h, v ∈ pts := by
+  unfold isStrictHull at hs
+  simp only [Bool.and_eq_true, List.all_eq_true, List.contains_eq_mem, decide_eq_true_eq] at hs
+  exact hs.1.2
+
+/-- [T] checker soundness, containment: every input coordinate is left of or on every edge of an
+accepted ring (exact orientation). -/
+theorem isStrictHull_contains (h pts : List Pt) (hs : isStrictHull h pts = true) :
+    ∀ p ∈ pts, ∀ e ∈ edges h, 0 ≤ cross e.1 e.2 p := by
+  unfold isStrictHull at hs
+  simp only [Bool.and_eq_true, List.all_eq_true, decide_eq_true_eq] at hs
+  exact hs.2
+
+/-- [T] conversely the checker accepts whenever the four clauses hold (it demands nothing more). -/
+theorem isStrictHull_complete (h pts : List Pt) (h1 : 4 ≤ h.length) (h2 : h.head? = h.getLast?)
+    (h3 : cycTriplesCcw h.dropLast = true) (h4 : ∀ v ∈ h, v ∈ pts)
+    (h5 : ∀ p ∈ pts, ∀ e ∈ edges h, 0 ≤ cross e.1 e.2 p) : isStrictHull h pts = true := by
+  unfold isStrictHull
+  simp only [Bool.and_eq_true, List.all_eq_true, List.contains_eq_mem, decide_eq_true_eq, beq_iff_eq]
+  exact ⟨⟨⟨⟨h1, h2⟩, h3⟩, h4⟩, h5⟩
+
+/-- non-vacuity: the checker accepts the unit square's hull and rejects the F6 ring that keeps
+`(4,0)` between `(2,0)` and `(5,0)`. -/
+example : isStrictHull [⟨0, 0⟩, ⟨1, 0⟩, ⟨1, 1⟩, ⟨0, 1⟩, ⟨0, 0⟩] [⟨0, 0⟩, ⟨1, 0⟩, ⟨1, 1⟩, ⟨0, 1⟩, ⟨1, 1⟩] = true := by
+  decide +kernel
+example : isStrictHull [⟨2, 0⟩, ⟨4, 0⟩, ⟨5, 0⟩, ⟨5, 5⟩, ⟨0, 5⟩, ⟨2, 0⟩]
+    [⟨2, 0⟩, ⟨5, 0⟩, ⟨4, 0⟩, ⟨5, 0⟩, ⟨4, 5⟩, ⟨5, 5⟩, ⟨4, 2⟩, ⟨4, 0⟩, ⟨0, 5⟩] = false := by
+  decide +kernel
+
+
+/-! ### T1: `minimum_rotated_rect` — every candidate box contains every hull vertex -/
+
+private theorem rmin_le_left (a b : Rat) : rmin a b ≤ a := by
+  unfold rmin; split
+  · exact le_refl _
+  · rename_i h; exact le_of_lt (not_le.1 h)
+
+private theorem rmin_le_right (a b : Rat) : rmin a b ≤ b := by
+  unfold rmin; split
+  · assumption
+  · exact le_refl _
+
+private theorem le_rmax_left (a b : Rat) : a ≤ rmax a b := by
+  unfold rmax; split
+  · assumption
+  · exact le_refl _
+
+private theorem le_rmax_right (a b : Rat) : b ≤ rmax a b := by
+  unfold rmax; split
+  · exact le_refl _
+  · rename_i h; exact le_of_lt (not_le.1 h)
+
+private theorem foldl_rmin_le (l : List Rat) : ∀ v : Rat,
+    l.foldl rmin v ≤ v ∧ ∀ x ∈ l, l.foldl rmin v ≤ x := by
+  induction l with
+  | nil => intro v; simp
+  | cons y t ih =>
+    intro v
+    simp only [List.foldl]
+    have h := ih (rmin v y)
+    refine ⟨le_trans h.1 (rmin_le_left _ _), ?_⟩
+    intro x hx
+    rcases List.mem_cons.1 hx with hx | hx
+    · subst hx; exact le_trans h.1 (rmin_le_right _ _)
+    · exact h.2 x hx
+
+private theorem le_foldl_rmax (l : List Rat) : ∀ v : Rat,
+    v ≤ l.foldl rmax v ∧ ∀ x ∈ l, x ≤ l.foldl rmax v := by
+  induction l with
+  | nil => intro v; simp
+  | cons y t ih =>
+    intro v
+    simp only [List.foldl]
+    have h := ih (rmax v y)
+    refine ⟨le_trans (le_rmax_left _ _) h.1, ?_⟩
+    intro x hx
+    rcases List.mem_cons.1 hx with hx | hx
+    · subst hx; exact le_trans (le_rmax_right _ _) h.1
+    · exact h.2 x hx
+
+/-- [T] for every direction `d` (in particular every hull-edge direction and its normal, which span
+the candidate rectangle of `minimum_rotated_rect`) the projection of every vertex lies between the
+two extreme projections whose difference is `extent d`; so each candidate rectangle contains every
+hull vertex, and its side lengths are non-negative. -/
+theorem mrr_contains (d p0 : Pt) (ps : List Pt) :
+    (∀ p ∈ p0 :: ps, (ps.map (dot d)).foldl rmin (dot d p0) ≤ dot d p ∧
+        dot d p ≤ (ps.map (dot d)).foldl rmax (dot d p0)) ∧
+    extent d (p0 :: ps) = (ps.map (dot d)).foldl rmax (dot d p0) - (ps.map (dot d)).foldl rmin (dot d p0) ∧
+    0 ≤ extent d (p0 :: ps) := by
+  have hmin := foldl_rmin_le (ps.map (dot d)) (dot d p0)
+  have hmax := le_foldl_rmax (ps.map (dot d)) (dot d p0)
+  refine ⟨?_, ?_, ?_⟩
+  · intro p hp
+    rcases List.mem_cons.1 hp with hp | hp
+    · subst hp; exact ⟨hmin.1, hmax.1⟩
+    · have hm : dot d p ∈ ps.map (dot d) := List.mem_map.2 ⟨p, hp, rfl⟩
+      exact ⟨hmin.2 _ hm, hmax.2 _ hm⟩
+  · simp [extent]
+  · have : extent d (p0 :: ps) = (ps.map (dot d)).foldl rmax (dot d p0) - (ps.map (dot d)).foldl rmin (dot d p0) := by
+      simp [extent]
+    rw [this]
+    linarith [hmin.1, hmax.1]
+
+/-- [T] `minimum_rotated_rect` keeps the smallest candidate: the selected area is not larger than
+the box area of any hull-edge direction. -/
+theorem minBoxArea_le (hull : List Pt) (m : Rat) (h : minBoxArea hull = some m) :
+    ∀ e ∈ edges hull, m ≤ boxArea (e.2 - e.1) hull := by
+  unfold minBoxArea at h
+  have key : ∀ (l : List (Pt × Pt)) (acc : Option Rat) (m : Rat),
+      l.foldl (fun acc e =>
+        let a := boxArea (e.2 - e.1) hull
+        match acc with
+        | none => some a
+        | some m => if a < m then some a else some m) acc = some m →
+      (∀ e ∈ l, m ≤ boxArea (e.2 - e.1) hull) ∧ (∀ m0, acc = some m0 → m ≤ m0) := by
+    intro l
+    induction l with
+    | nil =>
+      intro acc m h
+      simp only [List.foldl] at h
+      refine ⟨by simp, ?_⟩
+      intro m0 h0; rw [h0] at h; cases h; exact le_refl _
+    | cons e t ih =>
+      intro acc m h
+      simp only [List.foldl] at h
+      cases acc with
+      | none =>
+        have := ih _ m h
+        refine ⟨?_, by simp⟩
+        intro e' he'
+        rcases List.mem_cons.1 he' with he' | he'
+        · subst he'; exact this.2 _ rfl
+        · exact this.1 e' he'
+      | some m0 =>
+        dsimp only at h
+        by_cases hlt : boxArea (e.2 - e.1) hull < m0
+        · rw [if_pos hlt] at h
+          have := ih _ m h
+          refine ⟨?_, ?_⟩
+          · intro e' he'
+            rcases List.mem_cons.1 he' with he' | he'
+            · subst he'; exact this.2 _ rfl
+            · exact this.1 e' he'
+          · intro m1 h1; cases h1
+            exact le_trans (this.2 _ rfl) (le_of_lt hlt)
+        · rw [if_neg hlt] at h
+          have := ih _ m h
+          refine ⟨?_, ?_⟩
+          · intro e' he'
+            rcases List.mem_cons.1 he' with he' | he'
+            · subst he'; exact le_trans (this.2 _ rfl) (not_lt.1 hlt)
+            · exact this.1 e' he'
+          · intro m1 h1; cases h1
+            exact this.2 _ rfl
+  exact (key _ _ _ h).1
 
 end Geo.Proofs.C08
